@@ -76,3 +76,12 @@ Theorem C15_source_resets_are_model : forall q,
   reset_both q = (let '(h, o) := Gen.go_SequenceHandler_Reset (q_hi q) (q_out q) in mkSq h (q_bm q) o).
 Proof. exact go_resets_are_model. Qed.
 Print Assumptions C15_source_resets_are_model.
+
+(* ---------- lock discipline of the operations the model treats as atomic (go/ast obligation on the source under test) ---------- *)
+(* Every session operation the model takes as one step (In, Out, the three key-setup calls, the
+   sequence handlers' Check / Ack / Reset / ResetIn / RolloverRequired, the time-sequence handler,
+   the lazily created signing and encryption sessions, GetSession and the session cleaner) locks its
+   mutex first and defers the unlock: 21 methods, recomputed from state/*.go on every run. *)
+Theorem C15_lock_discipline : Gen.lock_discipline_state = true.
+Proof. repeat split; reflexivity. Qed.
+Print Assumptions C15_lock_discipline.
